@@ -436,7 +436,7 @@ func (r Rect) IntersectsCell(c Cell) bool {
 	// latitude-longitude rectangle does not have straight edges: two edges
 	// are curved, and at least one of them is concave.
 	for i := range vertices {
-		edgeLng := s1.IntervalFromEndpoints(latlngs[i].Lng.Radians(), latlngs[(i+1)&3].Lng.Radians())
+		edgeLng := s1.IntervalFromPointPair(latlngs[i].Lng.Radians(), latlngs[(i+1)&3].Lng.Radians())
 		if !r.Lng.Intersects(edgeLng) {
 			continue
 		}
